@@ -819,6 +819,43 @@ int main(int argc, char **argv)
             tinyjambu_prng_free(&st);
             munmap(custom, cl + 4096);
         }
+    } else if (!strcmp(a.mode, "hugegen")) {
+        /* thorough: ONE generate call of 2^32 + 7 bytes at the maximum limit against the same stream produced by 4096
+         * calls of exactly 1 MiB (+ 7 bytes) from an identically seeded object.  The pieces are the shape the model-
+         * checked 1 MiB streams have; in them every call after the first must begin with exactly one entropy request.
+         * Equal bytes then mean the single call reseeded at the same places (the stream after a reseed depends on
+         * where it happened), i.e. never more than the limit between requests, and 4096 requests in all. */
+        if (mine(&a, idx)) {
+            size_t total = ((size_t)1 << 32) + 7, piece = (size_t)1 << 20, pos, k, nbad = 0, firstbad = 0;
+            uint8_t *big = (uint8_t *)mmap(NULL, total + 4096, PROT_READ | PROT_WRITE, MAP_PRIVATE | MAP_ANONYMOUS | MAP_NORESERVE, -1, 0);
+            uint8_t *pc = (uint8_t *)malloc(piece + 64);
+            tinyjambu_prng_state_t sa, sb;
+            static cb_t ca, cbb;
+            size_t reqA, wrong_piece_requests = 0;
+            if (big == MAP_FAILED || !pc) { perror("mmap"); return 2; }
+            set_case("{\"h\":\"prng\",\"mode\":\"huge-generate\",\"i\":%ld,\"bytes\":%zu,\"limit\":1048576}", idx, total);
+            ++n_eval; cls_add(mix64(0x46E1, 1)); emit_sample();
+            cb_reset(&ca, a.seed, 0x46E1, NULL, 0, 0); cb_reset(&cbb, a.seed, 0x46E1, NULL, 0, 0);
+            tinyjambu_prng_init_user(&sa, entropy_cb, &ca, NULL, 0); tinyjambu_prng_set_reseed_limit(&sa, 1048576);
+            tinyjambu_prng_init_user(&sb, entropy_cb, &cbb, NULL, 0); tinyjambu_prng_set_reseed_limit(&sb, 1048576);
+            memset(big + total, 0x5C, 64);
+            tinyjambu_prng_generate(&sa, big, total); ++n_gen; n_bytes_out += total;
+            reqA = ca.nev - 1;
+            for (k = 0; k < 64; ++k) if (big[total + k] != 0x5C) { emit_viol("generate-wrote-past-size", "generate(2^32+7) wrote beyond the requested size"); break; }
+            for (pos = 0; pos < total; pos += piece) {
+                size_t n = total - pos < piece ? total - pos : piece, before = cbb.nev;
+                tinyjambu_prng_generate(&sb, pc, n); ++n_gen; n_bytes_out += n;
+                if (cbb.nev - before != (pos ? 1u : 0u)) ++wrong_piece_requests;
+                if (memcmp(pc, big + pos, n)) { if (!nbad) { for (k = 0; k < n && pc[k] == big[pos + k]; ++k) { } firstbad = pos + k; } ++nbad; }
+                n_bytes_cmp += n;
+            }
+            n_events += ca.nev + cbb.nev;
+            if (wrong_piece_requests) emit_viol("auto-reseed-missing-or-misplaced", "%zu of the 1 MiB pieces did not begin with exactly one entropy request", wrong_piece_requests);
+            if (reqA != 4096) emit_viol("reseed-budget-exceeded", "one generate call of 2^32+7 bytes at limit 1 MiB made %zu entropy requests instead of 4096", reqA);
+            if (nbad) emit_viol("drbg-output-mismatch:huge-generate", "a single 2^32+7 byte generate call differs from the same stream produced in 1 MiB calls, first at byte %zu (%zu pieces differ)", firstbad, nbad);
+            tinyjambu_prng_free(&sa); tinyjambu_prng_free(&sb);
+            munmap(big, total + 4096); free(pc);
+        }
     } else if (!strcmp(a.mode, "realfeeds")) {
         for (i = 0; i < 3; ++i, ++idx) if (mine(&a, idx)) budget_real_feeds(&a, idx, (int)i - 1);
     } else if (!strcmp(a.mode, "faults")) {
